@@ -590,6 +590,7 @@ impl Scenario for C18 {
                 17 => Op::new("sp_set", &[slot, rng.below(6) as f64, rng.range(0, 512) as f64, rng.range(0, 384) as f64]),
                 18 => Op::new("sp_len", &[slot, gen_len(&mut rng)]),
                 _ if rng.chance(1, 6) => Op::new("bufs_clone", &[rng.below(2) as f64]),
+                _ if rng.chance(1, 12) => Op::new("tls_teardown", &[list, gen_len(&mut rng), mode]),
                 _ => {
                     if rng.chance(1, 2) {
                         Op::new("sp_clear", &[slot])
@@ -797,6 +798,43 @@ impl Scenario for C18 {
                     }
                     prev_nonempty = !pts.is_empty();
                     prev_kind = if op.k == "owned" { "owned" } else { "borrowed" };
+                }
+                "tls_teardown" => {
+                    // a thread whose own thread-local value uses the buffer-less API while the thread is being torn down
+                    // (its destructor runs after those of thread-locals registered later): whatever the library keeps per
+                    // thread must not be needed there
+                    let Some(pts) = getlist(op.iarg(0)) else { return Ok(()) };
+                    let (len, mode) = (len_of(op.arg(1)), mode_of(op.iarg(2)));
+                    let want = fresh(mode, pts, len);
+                    st.inc("ops.buffer-less-api-during-thread-teardown");
+                    struct Guard(Option<(SliderPath, Snap)>);
+                    impl Drop for Guard {
+                        fn drop(&mut self) {
+                            if let Some((mut p, want)) = self.0.take() {
+                                p.clear_curve();
+                                let c = p.curve();
+                                if snap(c.path(), c.lengths()) != want {
+                                    // (a destructor cannot return a verdict: make the process die, the supervisor reports it)
+                                    std::process::abort();
+                                }
+                            }
+                        }
+                    }
+                    thread_local! {
+                        static GUARD: std::cell::RefCell<Guard> = const { std::cell::RefCell::new(Guard(None)) };
+                    }
+                    let pts = pts.clone();
+                    let ok = crate::engine::on_fresh_thread(move || {
+                        // register the guard first ...
+                        GUARD.with(|g| g.borrow_mut().0 = Some((SliderPath::new(mode, pts.clone(), len), want.clone())));
+                        // ... then let the library do whatever it does per thread
+                        let mut p = SliderPath::new(mode, pts, len);
+                        let c = p.curve();
+                        snap(c.path(), c.lengths()) == want
+                    });
+                    if !ok {
+                        return Err(Violation::new("C18/differs-from-fresh-buffers", "reuse", format!("op #{i}: SliderPath::curve() on a fresh thread differs from fresh buffers")));
+                    }
                 }
                 "bufs_clone" => {
                     // the shared buffers are replaced by a clone of themselves (or cloned and the clone dropped): a copy
@@ -1053,6 +1091,7 @@ impl Scenario for C18 {
             "ops.mutate-length",
             "ops.mutate-churn",
             "ops.buffers-cloned",
+            "ops.buffer-less-api-during-thread-teardown",
             "ops.decoded-map-mode-edited-before-encode",
             "ops.histories-with-thread-hand-offs",
             "ops.lookup-histories",
